@@ -660,7 +660,22 @@ impl<'a> ProgGen<'a> {
                 }
             }
             37 => format!("{st} | [.[{n}:{m}] | explode[]] | implode"),
-            38 => format!("{st} | sub(\"(?<n>.)\"; \"\\(.n)\\(.n)\"; \"g\")"),
+            38 => {
+                // long / deeply nested TEXT handed to the parsers that live behind builtins
+                let n = *self.rng.pick(&["300", "383", "384", "385", "1000", "5000", "200000"]);
+                match self.rng.below(10) {
+                    0 => format!("(\"[\" * {n}) | try fromjson catch \"e\""),
+                    1 => format!("(\"[\" * {n} + \"]\" * {n}) | fromjson | tojson | length"),
+                    2 => format!("(\"{{\\\"a\\\":\" * {n} + \"1\" + \"}}\" * {n}) | fromjson? | type"),
+                    3 => format!("(\"[\" * {n}) | tonumber?"),
+                    4 => format!("(\"(\" * {n} + \")\" * {n}) as $re | \"x\" | test($re)?"),
+                    5 => format!("(\"%Y \" * {n}) as $f | 0 | strftime($f) | length"),
+                    6 => format!("(\"a\" * {n}) | [match(\"a*?\"; \"g\")] | length"),
+                    7 => format!("(\"\\\\\" * {n}) | fromjson? // \"x\" | length"),
+                    8 => format!("(\"[\" * {n} + \"1\" + \"]\" * {n}) | fromjson? | [paths] | length"),
+                    _ => format!("{st} | sub(\"(?<n>.)\"; \"\\(.n)\\(.n)\"; \"g\")"),
+                }
+            }
             _ => format!("({st} | {}) | {}", self.expr(6), (*self.rng.pick(&["length", "explode", "ascii_downcase", "tojson", "@base64", "utf8bytelength", "tonumber?", "ltrimstr(\"a\")"]))),
         }
     }
